@@ -9,15 +9,17 @@ import (
 	"fmt"
 	"math/big"
 	"testing"
+	"unsafe"
 
 	"github.com/ProjectSerenity/firefly/kernel"
 	"github.com/ProjectSerenity/firefly/kernel/mm"
+	"github.com/ProjectSerenity/firefly/kernel/multiboot"
 	"pgregory.net/rapid"
 	"verifharness/vlib"
 )
 
 type c07Op struct {
-	Kind   string `json:"kind"`            // reserve, mapRegion, identityMap
+	Kind   string `json:"kind"`            // reserve, mapRegion, identityMap, setupPDT (the kernel's page directory is built and activated between two requests, as at boot)
 	Size   uint64 `json:"size"`            // absolute size ...
 	Rel    bool   `json:"rel,omitempty"`   // ... or remaining space + Delta
 	Delta  int64  `json:"delta,omitempty"` //
@@ -37,6 +39,7 @@ type c07Case struct {
 
 type c07Stats struct {
 	okReservations int
+	pdtBetween     bool // the page directory was set up after one reservation and before another
 	nested         bool
 	nearRemaining  bool
 	overflowBand   bool
@@ -115,6 +118,49 @@ func c07Run(c c07Case) (*vlib.Failure, c07Stats) {
 			nestedSize, nestedAt = op.Nested, op.NestedAt
 		}
 		switch op.Kind {
+		case "setupPDT":
+			// The boot order: something is reserved, vmm builds and activates the kernel's page directory
+			// (which carries the reserved window over, page by page), more is reserved. The call is no
+			// request: whatever it does to the cursor is judged by the requests that follow (round 21, C07-u).
+			if uint64(tempMappingAddr-cursor)>>12 > 96 || cursor > tempMappingAddr {
+				continue // only while the window to carry over is small
+			}
+			limit, runaway, failAt, nestedSize = 1<<12, false, 0, 0
+			buf := make([]byte, 2*mm.PageSize)
+			host := (uintptr(unsafe.Pointer(&buf[0])) + mm.PageSize - 1) &^ (mm.PageSize - 1)
+			sv := struct {
+				a func() uintptr
+				s func(uintptr)
+				t func(uintptr) (uintptr, *kernel.Error)
+				u func(mm.Page) *kernel.Error
+				m func(mm.Frame) (mm.Page, *kernel.Error)
+				v func(multiboot.ElfSectionVisitor)
+			}{activePDTFn, switchPDTFn, translateFn, unmapFn, mapTemporaryFn, visitElfSectionsFn}
+			mm.SetFrameAllocator(func() (mm.Frame, *kernel.Error) { return mm.Frame(host >> mm.PageShift), nil })
+			activePDTFn = func() uintptr { return host }
+			switchPDTFn = func(uintptr) {}
+			translateFn = func(uintptr) (uintptr, *kernel.Error) { return 0xbadf00d000, nil }
+			unmapFn = func(mm.Page) *kernel.Error { return nil }
+			mapTemporaryFn = func(f mm.Frame) (mm.Page, *kernel.Error) { return mm.Page(f), nil }
+			visitElfSectionsFn = func(multiboot.ElfSectionVisitor) {}
+			var err *kernel.Error
+			pc := vlib.Catch(func() { err = setupPDTForKernel(0) })
+			activePDTFn, switchPDTFn, translateFn, unmapFn, mapTemporaryFn, visitElfSectionsFn = sv.a, sv.s, sv.t, sv.u, sv.m, sv.v
+			mm.SetFrameAllocator(nil)
+			_ = buf
+			if pc.Panicked {
+				return vlib.Failf("%s: setupPDTForKernel with %d reserved pages to carry over: %v", when, uint64(tempMappingAddr-cursor)>>12, pc), rs
+			}
+			if err != nil {
+				continue
+			}
+			if now := earlyReserveLastUsed; now < cursor {
+				// it reserved something for itself: a region like any other
+				regions = append(regions, c07Region{now, cursor})
+			}
+			if len(regions) > 0 {
+				rs.pdtBetween = true
+			}
 		case "reserve":
 			var addr uintptr
 			var err *kernel.Error
@@ -275,6 +321,9 @@ func c07CheckRegion(when string, addr uintptr, size uint64, prevCursor uintptr, 
 
 func c07GenOp(t *rapid.T) c07Op {
 	op := c07Op{Kind: rapid.SampledFrom([]string{"reserve", "reserve", "reserve", "mapRegion", "mapRegion", "identityMap"}).Draw(t, "kind")}
+	if rapid.IntRange(0, 11).Draw(t, "pdt") == 0 {
+		return c07Op{Kind: "setupPDT"}
+	}
 	switch rapid.IntRange(0, 9).Draw(t, "sizeclass") {
 	case 0:
 		op.Size = rapid.SampledFrom([]uint64{0, 1, 4095, 4096, 4097}).Draw(t, "small")
@@ -318,6 +367,9 @@ func TestVerifC07(t *testing.T) {
 		}
 		if rs.nearRemaining {
 			labels = append(labels, "size-within-a-page-of-remaining-space")
+		}
+		if rs.pdtBetween {
+			labels = append(labels, "page-directory-set-up-after-a-reservation")
 		}
 		if rs.overflowBand {
 			labels = append(labels, "size-in-overflow-band")
